@@ -1092,6 +1092,9 @@ class Expression(Expr):
             if seq_get(expressions, index) is None:
                 return
 
+            if index < 0:
+                index += len(expressions)
+
             if value is None:
                 expressions.pop(index)
                 for v in expressions[index:]:
